@@ -41,6 +41,7 @@ Definition running_while_tracing (a b : list op) : bool :=
 Definition should_record (ops : list op) (r : row) : Prop :=
   exists a b c id parent kind what loc s e,
     ops = a ++ OStart id parent kind what loc s :: b ++ OEnd id e :: c /\
+    forallb (fun o => negb (ends_of id o)) b = true /\          (* the first end after the start *)
     running_while_tracing a b = true /\
     r = trace_row id parent kind what loc s e.
 
@@ -91,8 +92,45 @@ Fixpoint on_after_h (h : list op) : bool :=
   | _ :: r => on_after_h r
   end.
 
+(** A task (ID) is running after the calls [h] (newest first): its latest start
+    is not followed by an end.  An end of an ID that is not running (a repeated end,
+    an end of a task that never started) changes nothing. *)
+Fixpoint live (id : N) (h : list op) : bool :=
+  match h with
+  | [] => false
+  | OStart i _ _ _ _ _ :: r => if i =? id then true else live id r
+  | OEnd i _ :: r => if i =? id then false else live id r
+  | _ :: r => live id r
+  end.
+
+(** Tags / milestones that mention an ID while no task with that ID is running
+    belong to the NEXT task that starts with the ID ("a task may first be mentioned
+    by a tag or a milestone"); any end of the ID closes the mention and discards
+    them.  [pend_tags id h]: the tag rows waiting for the next start, oldest first. *)
+Fixpoint pend_tags (id : N) (h : list op) : list row :=
+  match h with
+  | [] => []
+  | OStart i _ _ _ _ _ :: r => if i =? id then [] else pend_tags id r
+  | OEnd i _ :: r => if i =? id then [] else pend_tags id r
+  | OTag tid task what t :: r =>
+      if task =? id then pend_tags id r ++ [tag_row tid task t what] else pend_tags id r
+  | _ :: r => pend_tags id r
+  end.
+
+Fixpoint pend_miles (id : N) (h : list op) : list row :=
+  match h with
+  | [] => []
+  | OStart i _ _ _ _ _ :: r => if i =? id then [] else pend_miles id r
+  | OEnd i _ :: r => if i =? id then [] else pend_miles id r
+  | OMile mid task t kind what :: r =>
+      if task =? id then pend_miles id r ++ [mile_row mid task t kind what] else pend_miles id r
+  | _ :: r => pend_miles id r
+  end.
+
 (** rows (trace, milestone, tag) contributed by the calls [ops], given the calls
-    [h] (newest first) before them. *)
+    [h] (newest first) before them: an end of a RUNNING task that was running at some
+    point while tracing was on contributes the task's row, its tags and milestones -
+    those that waited for its start, then those that arrived while it ran. *)
 Fixpoint spec_rows (h : list op) (ops : list op) : list row * list row * list row :=
   match ops with
   | [] => ([], [], [])
@@ -100,26 +138,27 @@ Fixpoint spec_rows (h : list op) (ops : list op) : list row * list row * list ro
       let '(tr, mi, tg) := spec_rows (o :: h) r in
       match o with
       | OEnd id e =>
-          match split_start id h [] with
-          | Some (between, OStart _ parent kind what loc s, older) =>
-              if on_after_h older || existsb is_start_tracing between then
-                (trace_row id parent kind what loc s e :: tr,
-                 first_per_instant [] (miles_of id between) ++ mi,
-                 tags_of id between ++ tg)
-              else (tr, mi, tg)
-          | _ => (tr, mi, tg)
-          end
+          if live id h then
+            match split_start id h [] with
+            | Some (between, OStart _ parent kind what loc s, older) =>
+                if on_after_h older || existsb is_start_tracing between then
+                  (trace_row id parent kind what loc s e :: tr,
+                   first_per_instant [] (pend_miles id older ++ miles_of id between) ++ mi,
+                   (pend_tags id older ++ tags_of id between) ++ tg)
+                else (tr, mi, tg)
+            | _ => (tr, mi, tg)
+            end
+          else (tr, mi, tg)
       | _ => (tr, mi, tg)
       end
   end.
 
 (** ---------------------------------------------------------------- well-formed
-    histories: the task events are those of a well-formed trace (C32) and the clock
-    does not go backwards; control calls are unconstrained, except that nothing
-    follows Terminate. *)
-Definition live (id : N) (h : list op) : bool :=
-  existsb (N.eqb id) (started_ids h) && negb (existsb (N.eqb id) (ended_ids h)).
-
+    histories: a task is started with valid fields and only while no task with the
+    same ID is running (IDs may be reused after the end); ends, tags and milestones
+    are unconstrained (repeated ends, ends of unknown IDs, tags before the start);
+    the clock does not go backwards; control calls are unconstrained, except that
+    nothing follows Terminate. *)
 Fixpoint wf_h (h : list op) : bool :=
   match h with
   | [] => true
@@ -127,12 +166,7 @@ Fixpoint wf_h (h : list op) : bool :=
       wf_h r &&
       (match r with [] => true | p :: _ => (op_time p <=? op_time o) && negb (is_terminate p) end) &&
       (match o with
-       | OStart id _ kind what loc _ =>
-           valid_start id kind what loc &&
-           negb (existsb (N.eqb id) (started_ids r)) && negb (existsb (N.eqb id) (ended_ids r))
-       | OEnd id _ => live id r
-       | OTag _ task _ _ => live task r
-       | OMile _ task _ _ _ => live task r
+       | OStart id _ kind what loc _ => valid_start id kind what loc && negb (live id r)
        | _ => true
        end)
   end.
